@@ -404,6 +404,11 @@ class WT:
                     isinstance(env.get(s.value.func.value.id), tuple) and env[s.value.func.value.id][0] == 'tuple' and len(s.value.args) == 1:
                 nm_ = s.value.func.value.id          # a literal list that grows: still a literal list
                 env[nm_] = ('tuple', env[nm_][1] + (self.ev(f, s.value.args[0], env, depth),))
+            elif isinstance(s, ast.Expr) and isinstance(s.value, ast.Call) and isinstance(s.value.func, ast.Attribute) and \
+                    s.value.func.attr == 'fill' and len(s.value.args) == 1 and not s.value.keywords:
+                # `a.fill(v)` is the whole-array store `a[:] = v`
+                self.stores.append((('index', self.ev(f, s.value.func.value, env, depth), ('slice', None, None, None)),
+                                    self.ev(f, s.value.args[0], env, depth), list(self.guards), s))
             elif isinstance(s, ast.Expr):
                 self.ev(f, s.value, env, depth)
             elif isinstance(s, ast.If):
